@@ -17,7 +17,7 @@ RULE = (
     "case JSON; per-block draw counts are in counters."
 )
 ASSUMPTIONS = [
-    "conjugacy is asserted for the three precisions the statement names (observation noise, intercept scale tau0, embedding scales tau via the multiplicative gamma process); the local/global shrinkage blocks (phi*, eta*) are checked for order, bounds and finiteness only (no documented prior beyond the code)",
+    "conjugacy is asserted for observation noise, intercept scale tau0, embedding scales tau (multiplicative gamma process) and for the global treatment scales eta0/eta1/eta2 (given the local scales the sampler holds after the block: the prior precision of V[m] is phi[m]*eta, which the Gaussian-block oracle already pins); the local scales phi* and the auxiliary variables are checked for order, bounds and finiteness only (their hyper-prior is not documented beyond the code)",
     "the gamma rate may carry the code's +1e-3 stabiliser (both b and b+1e-3 accepted)",
     "rows with the same non-control treatment in both positions are excluded (the mean is quadratic in that embedding: no Gaussian full conditional exists)",
     "tolerance 1e-3 x (|mean|+sd) + 1e-5 (vector blocks: (1e-3 + 1e-6 x cond(Q)) x (|mean|+sd), capped at 0.2): the sampler keeps parameters, design matrices and fitted values in float32; numpy's normal/gamma generators are trusted given their parameters",
@@ -68,6 +68,7 @@ class Recorder:
         self.nontrivial_draws = 0
         self.last_c = None
         self.applied = []  # (block, coordinate, value returned by the multivariate draw)
+        self.scale_draws = []  # gamma draws of the current treatment-scale block: [shape, scale, returned value]
 
     def fail(self, sub, msg):
         if len(self.failures) < 3:
@@ -140,7 +141,10 @@ class Recorder:
             return
         b = self.block
         if b not in ("_prec_obs_step", "_prec_W0_step", "_prec_W_step"):
-            self.counts[b + ".shrinkage_draws_not_asserted"] += 1
+            # treatment-side local / global scales: the draws are kept (with the values they return, see gamma_result) and the
+            # global-scale update is checked against the state the block leaves behind (after_block)
+            self.counts[b + ".shrinkage_draws"] += 1
+            self.scale_draws.append([np.array(shape, dtype=float, copy=True), np.array(scale, dtype=float, copy=True), None])
             return
         s = G.State(self.wm)
         sh, sc = np.asarray(shape, dtype=float), np.asarray(scale, dtype=float)
@@ -179,6 +183,10 @@ class Recorder:
                     return
             e = [G.cond_delta(s, d) for d in range(s.D) if d not in self.visited]
             self.fail(b + ".conjugate", "embedding-scale factor drawn from Gamma(shape=%r, scale=%r); multiplicative-gamma-process updates of the unvisited dimensions are (shape, rate) %r" % (sh, sc, e))
+
+    def gamma_result(self, value):
+        if self.block is not None and self.scale_draws and self.scale_draws[-1][2] is None:
+            self.scale_draws[-1][2] = np.array(value, dtype=float, copy=True)
 
     # -- multivariate normal draws
     def mvn(self, Q, mu, mu_part, chol_factor):
@@ -243,7 +251,9 @@ class RecGen(np.random.Generator):
 
     def gamma(self, shape, scale=1.0, size=None):
         self._rec.gamma(shape, scale)
-        return self._g.gamma(shape, scale, size)
+        v = self._g.gamma(shape, scale, size)
+        self._rec.gamma_result(v)
+        return v
 
     def standard_normal(self, size=None, *a, **k):
         self._rec.normal(0.0, 1.0)
@@ -345,6 +355,21 @@ def check_case(case):
             require(bool(np.all(np.abs(Mu - mu) <= scale)), name + ".fitted_values", lambda: "after %s the running fitted values differ from those implied by the parameters by up to %r" % (name, float(np.max(np.abs(Mu - mu)))))
             if name == "_alpha_step":
                 require(abs(s.alpha - float(np.mean(s.y))) <= 1e-5 * (1 + abs(float(np.mean(s.y)))), "_alpha_step.mean_of_observations", lambda: "global intercept %r, mean of the transformed observations %r" % (s.alpha, float(np.mean(s.y))))
+        if name in ("_prec_V0_step", "_prec_V1_step", "_prec_V2_step") and len(rec.scale_draws) >= 2:
+            # global treatment scale eta (prior precision of V[m] is phi[m]*eta): given the local scales phi THE SAMPLER HOLDS, the
+            # treatments' parameters V and its auxiliary variable (the draw just before), its conjugate update is
+            # Gamma((1+M)/2, rate = aux + 1/2 sum_m phi[m] V[m]^2).  Asserted only when the block's last two draws have that form.
+            k_ = name[7]
+            phi = np.asarray(getattr(wm, "phi" + k_), dtype=float)
+            V = np.asarray(getattr(wm, "V" + k_), dtype=float)
+            (sh_a, sc_a, aux), (sh_e, sc_e, _) = rec.scale_draws[-2], rec.scale_draws[-1]
+            M = V.shape[0]
+            if aux is not None and np.all(sh_a == 1.0) and np.all(np.abs(sh_e - 0.5 * (1 + M)) < 1e-9) and np.shape(sc_e) == np.shape(aux):
+                expect = np.asarray(aux, dtype=float) + 0.5 * (phi * V**2).sum(0)
+                rate = 1.0 / np.asarray(sc_e, dtype=float)
+                ok_ = (np.abs(rate - expect) <= 1e-4 * (1 + np.abs(expect))) | (np.abs(rate - expect - 1e-3) <= 1e-4 * (1 + np.abs(expect)))
+                require(bool(np.all(ok_)), name + ".global_scale_conditional", lambda: "block %s: the global scale was drawn with rate %r; given the local scales the sampler holds after the block, the treatments' parameters and the auxiliary draw %r the conjugate rate is %r (+1e-3 stabiliser allowed)" % (name, np.ravel(rate).tolist(), np.ravel(aux).tolist(), np.ravel(expect).tolist()))
+                counts[name + ".global_scale_checked"] += 1
         if name.startswith("_prec"):
             msg = G.bounds_ok(wm)
             require(msg is None, name + ".bounds", lambda: msg)
@@ -357,6 +382,7 @@ def check_case(case):
         def w(*a, **k):
             rec.block = name
             rec.visited = set()
+            rec.scale_draws = []
             rec.order.append(name)
             try:
                 return orig(*a, **k)
@@ -379,7 +405,9 @@ def check_case(case):
 
     def p_gamma(shape, scale=1.0, size=None):
         rec.gamma(shape, scale)
-        return o_gamma(shape, scale, size)
+        v = o_gamma(shape, scale, size)
+        rec.gamma_result(v)
+        return v
 
     def p_mvn(Q, mu=None, mu_part=None, chol_factor=False, rng=None):
         rec.last_c = None
